@@ -97,6 +97,9 @@ func (C07) Execute(sc *core.Scenario, keepLog bool) *core.Result {
 			if mode == "error" && strings.HasSuffix(rec.points[k], ".torn") {
 				continue
 			}
+			if mode == "crash" && strings.HasPrefix(rec.points[k], "db.stmt.") {
+				continue // inside one SQL transaction: same image as the preceding boundary
+			}
 			p := &c07Pass{mode: mode, point: k, filesAfter: rec.filesAfter}
 			r := c07Run(sc, keepLog, p)
 			merge(r)
@@ -170,6 +173,7 @@ func c07Run(sc *core.Scenario, keepLog bool, p *c07Pass) *core.Result {
 			return errInjectedStep
 		}
 		e.W.DB.Hook = boundary
+		e.W.DB.Statements = true
 		e.W.Store.Hook = func(op string, ids []imap.InternalMessageID) *world.StoreFault {
 			if !armed || (op != "set" && op != "delete") {
 				return nil
@@ -299,7 +303,10 @@ func c07Run(sc *core.Scenario, keepLog bool, p *c07Pass) *core.Result {
 			}
 		case "op.subscribe":
 			touched = nil
-			cmd = func() (bool, string) { r := s.Cmd("UNSUBSCRIBE %s", Quote(other)); return r.OK(), "UNSUBSCRIBE " + other }
+			cmd = func() (bool, string) {
+				r := s.Cmd("UNSUBSCRIBE %s", Quote(other))
+				return r.OK(), "UNSUBSCRIBE " + other
+			}
 		case "op.conn-created", "op.conn-deleted", "op.conn-updated":
 			var rid imap.MailboxID
 			for id, nm := range u.Conn.MboxNames {
